@@ -1,7 +1,7 @@
 (* C02 - Every datum is aligned, inside the published capacity, listed in address order. *)
 From Coq Require Import List NArith Lia Sorting.Sorted.
 From Truc.Model Require Import Layout Builder.
-From Truc.Proofs Require Import Variants BuilderInv LayoutThms.
+From Truc.Proofs Require Import Variants BuilderInv LayoutThms Panics Bound.
 Import ListNotations.
 Open Scope N_scope.
 
@@ -28,6 +28,21 @@ Proof.
   - exact (order_all h Hh v Hv).
 Qed.
 Print Assumptions C02.
+
+(* the capacity clause without its proviso: when the sizes and alignments the history asks for add up to at
+   most usize::MAX, max_size answers, every datum of every variant ends at or below the answer, and the
+   answer itself is at most what was asked for (Proofs/Bound.v) *)
+Theorem C02_capacity : forall h, hist_ok h -> hbound h <= MAXU ->
+  let s := run h in let ds := b_ds s in
+  exists m, max_size (ds, b_vs s) = Some m /\
+            forall v d, In v (b_vs s) -> In d v -> off ds d + size ds d <= m.
+Proof.
+  intros h Hh Hb s ds.
+  destruct (max_size (ds, b_vs s)) as [m|] eqn:E.
+  - exists m. split; [reflexivity|]. intros v d Hv Hd. exact (capacity_covers (ds, b_vs s) m E v d Hv Hd).
+  - exfalso. apply (max_size_some ds (b_vs s)); [apply fits_of_bound; auto|exact E].
+Qed.
+Print Assumptions C02_capacity.
 
 (* the capacity function before the fix "max_size only considers data that belong to a variant"
    panics (None) on a datum added and removed while pending; with the fix it answers *)
